@@ -201,6 +201,49 @@ def warpGridWith (eps mu : Rat) (T len : Nat) (src flow : Rat) : List Rat :=
 def warpGrid (eps : Rat) (T len : Nat) (src flow : Rat) : List Rat :=
   warpGridWith eps (knotMargin eps T) T len src flow
 
+/-- One value of the order-1 grid *as the repaired `warp_1d_grid` evaluates it* (the literal
+arithmetic of the code, every quantity an offset from the nearer pinned end so that offsets
+as small as `eps` survive float32):
+
+```
+scale = 2 / T;  last = len - 1;  span = scale * last + 2 eps
+src_lo = scale * src + eps;            src_up = scale * (last - src) + eps
+dst_lo = scale * dst + eps;            dst_up = scale * (last - dst) + eps
+margin = 2 eps T
+dst_lo = min(max(dst_lo, margin * src_lo), span - margin * src_up)
+dst_up = min(max(dst_up, margin * src_up), span - margin * src_lo)
+t_lo = scale * j + eps;                t_up = scale * (last - j) + eps
+left = src_lo * (t_lo / dst_lo);       right = span - src_up * (t_up / dst_up)
+grid = where((t_lo <= dst_lo) & (t_up >= dst_up), left, right)
+grid = where(t_up <= 0, t_lo, grid)
+return grid + (1 / T - 1 - eps)
+```
+
+`Properties/C08.lean` (`C08_linear_warp_stable_eq`) proves that this is `pwl` through
+`warpKnots eps (2 eps T)` at the centre of frame `j`, i.e. `warpGridStable = warpGrid`. -/
+def stableAt (eps : Rat) (T len : Nat) (src flow : Rat) (j : Nat) : Rat :=
+  let scale : Rat := 2 / (T : Rat)
+  let last : Rat := (len : Rat) - 1
+  let s := clampSrc len src
+  let d := clampDst len src flow
+  let span := scale * last + 2 * eps
+  let srcLo := scale * s + eps
+  let srcUp := scale * (last - s) + eps
+  let margin := 2 * eps * (T : Rat)
+  let dstLo := rmin (rmax (scale * d + eps) (margin * srcLo)) (span - margin * srcUp)
+  let dstUp := rmin (rmax (scale * (last - d) + eps) (margin * srcUp)) (span - margin * srcLo)
+  let tLo := scale * (j : Rat) + eps
+  let tUp := scale * (last - (j : Rat)) + eps
+  let left := srcLo * (tLo / dstLo)
+  let right := span - srcUp * (tUp / dstUp)
+  let g := if tLo ≤ dstLo ∧ dstUp ≤ tUp then left else right
+  let g := if tUp ≤ 0 then tLo else g
+  g + (1 / (T : Rat) - 1 - eps)
+
+/-- `warp_1d_grid(src, flow, len, T, 1)` computed the way the code does (see `stableAt`). -/
+def warpGridStable (eps : Rat) (T len : Nat) (src flow : Rat) : List Rat :=
+  (List.range T).map (fun (j : Nat) => stableAt eps T len src flow j)
+
 /-- The identity grid used for the dimension that is not warped. -/
 def idGrid (T : Nat) : List Rat := (List.range T).map (fun (j : Nat) => norm T (j : Rat))
 
